@@ -215,12 +215,18 @@ def build_traces(path, tier, seed):
         steps = int(rng.integers(2, 9))
         master = int(rng.integers(0, k))
         base = np.cumsum(rng.standard_normal(n + 2 * steps))
-        longrec = i >= nclu - (1 if tier == "quick" else 4)
+        longrec = i >= nclu - (2 if tier == "quick" else 4)
         if longrec:
             # a long record with a long quiet (exactly zero) pre-event part: only the late part tells the lags apart
             k, n = 2, int(rng.integers(4300, 4600))
             master = int(rng.integers(0, 2))
             base = np.concatenate([np.zeros(n + 2 * steps - 170), np.cumsum(rng.standard_normal(170))])
+        if longrec and (i == nclu - 1 or rng.integers(3) == 0):
+            # ... or a record of more than 8192 samples dominated by a drift (a slow trend plus a weak ripple): only the direct
+            # comparison of the overlapping samples finds the lag
+            n = int(rng.integers(8300, 9500))
+            idx_ = np.arange(n + 2 * steps, dtype=float)
+            base = 0.002 * idx_ + 1e-7 * idx_ ** 2 + 0.3 * np.sin(idx_ / 37.0) + 0.05 * rng.standard_normal(n + 2 * steps)
         trend = bool(rng.integers(4) == 0) and not longrec
         if trend:
             # exactly representable linear trend (counts, halves), optionally with a ripple whose period is shorter than the
